@@ -37,3 +37,7 @@ s_harness! { fn c14_shape_9() { shape_9::<{ CHK_MONITOR | CHK_SIZES }>() } }
 // C13: partial selection (nothing live is copied out of a file that is left alone) and idempotence
 s_harness! { fn c13_partial() { shape_10::<{ CHK_SIZES | CHK_READS }>() } }
 s_harness! { fn c13_twice() { shape_11::<{ CHK_SIZES | CHK_READS }>() } }
+// C01: an entry as large as the write buffer and larger than max_file_size
+s_harness! { fn c01_bigentry() { shape_12() } }
+// C01/C05: three live keys, merge rolling over into three output files, restart
+s_harness! { fn c01_merge3() { shape_13() } }
